@@ -890,7 +890,12 @@ def ruleDigitDuration(ts: datetime, m: RegexMatch) -> Optional[Duration]:
         for n, _, in _durations:
             unit = m.match.group("d_" + n.value)
             if unit:
-                return Duration(int(num), n)
+                try:
+                    return Duration(int(num), n)
+                except ValueError:
+                    # digits int() cannot convert (too many of them, or
+                    # digits the pattern engine knows but Python does not)
+                    return None
 
     return None
 
